@@ -2,7 +2,7 @@
    correspondence check (vm_compute in the kernel, extracted OCaml) call only this. *)
 From Coq Require Import ZArith List Bool.
 Import ListNotations.
-From Eudoxia Require Import Model.Codec Model.RunLife Model.RunExec Model.RunTime Model.RunSim Model.RunCsv Model.RunTools Model.RunGen Model.RunTrace Model.RunRest.
+From Eudoxia Require Import Model.Codec Model.RunLife Model.RunExec Model.RunTime Model.RunSim Model.RunCsv Model.RunTools Model.RunGen Model.RunTrace Model.RunRest Model.RunRestSim.
 
 Definition run (kind : Z) (l : list Z) : list Z :=
   match kind with
@@ -18,6 +18,7 @@ Definition run (kind : Z) (l : list Z) : list Z :=
   | 24 => run_csv_write l
   | 19 => run_rest l
   | 29 => run_rest_codec l
+  | 39 => run_restsim l
   | 20 => run_snap l
   | 21 => run_jitter l
   | 22 => run_seed l
